@@ -5,7 +5,7 @@ from bsa.core import driver
 from bsa.graph import IG
 from bsa import atomics as A
 from bsa import lib as L
-from bsa.facts import pstr, strip_cast, const_val
+from bsa.facts import pstr, strip_cast, const_val, walk
 
 EXPLANATION = (
     "Structural clauses of C16 on ConcurrentExecutionQueue<T,S>: R1 in the consumer loop every value of the expected "
@@ -144,6 +144,45 @@ def run(ctx):
             loads = [a for a in ops if a.op == "load"]
             ctx.ob("C16.R2c", inst, bool(loads) and all(A.acquires(a.order) for a in loads), fn.loc,
                    "join() must observe the event counter with acquire")
+            # R2d join returns only on the edge where the counter it loaded was 0
+            lids = set(a.node.id for a in loads)
+            zero_e = L.result_edges(ig, lids, False, live)
+
+            def is_zero(atom, pol, lab):
+                c = L.effective_cmp(atom, pol)
+                return c is not None and c[0] == "==" and const_val(c[2]) == 0 and \
+                    any(ig.ev_of(o) is not None and ig.ev_of(o).id in lids for o in ig.origins(c[1]))
+            zero_e = list(zero_e) + L.cond_edges(ig, is_zero, live)
+            rets = [n for n in ig.ev_nodes() if n.id in live and n.ev["e"] == "ret"] or [ig.exit]
+            r0 = ig.reach([ig.entry], removed_edges=zero_e)
+            ctx.ob("C16.R2d", inst, bool(zero_e) and ig.exit.id not in r0, fn.loc,
+                   "join() can return without having seen the event counter at 0: items accepted before the call may still be "
+                   "unconsumed when it returns", site="join@returns-on-zero")
+        if fn.name == "consume_until_empty":
+            # R2e the consumer hands the items to the function installed by initialize()
+            pops_ = [n for n in ig.ev_nodes() if n.id in live and n.ev["e"] == "call" and re.search(POP_RE, n.ev.get("callee", "") or "")]
+            okc = bool(pops_) and all(strip_cast(ig.rarg(p_, 0)).get("n") == "_consume_function" for p_ in pops_)
+            ctx.ob("C16.R2e", inst, okc, fn.loc, "the consumer must pass every popped item to the installed consume function",
+                   site="consume_until_empty@consume-function")
+        if fn.name == "initialize":
+            st, stn = {}, {}
+            for n in ig.ev_nodes():
+                if n.id in live and n.ev["e"] == "asg" and strip_cast(n.ev.get("lhs")).get("k") == "f":
+                    st[strip_cast(n.ev["lhs"]).get("n")] = strip_cast(ig.resolve(n.ev.get("rhs"), n.frame))
+                    stn.setdefault(strip_cast(n.ev["lhs"]).get("n"), []).append(n)
+                if n.id in live and n.ev["e"] == "call" and n.ev.get("name") == "operator=" and strip_cast(n.ev.get("this")).get("k") == "f":
+                    st[strip_cast(n.ev["this"]).get("n")] = strip_cast(ig.rarg(n, 0))
+                    stn.setdefault(strip_cast(n.ev["this"]).get("n"), []).append(n)
+            for k_ in ("_executor", "_consume_function"):
+                if k_ in st and ig.exit.id in ig.reach([ig.entry], removed=stn[k_]):
+                    del st[k_]          # not installed on every path
+            def from_param(d, i):
+                return any(isinstance(sd, dict) and sd.get("k") == "p" and sd.get("i") == i for sd in walk(d))
+            ctx.ob("C16.R2f", inst[:110], "_executor" in st and from_param(st["_executor"], 1) and
+                   "_consume_function" in st and from_param(st["_consume_function"], 2) and
+                   any(n.ev.get("name") == "reserve_and_clear" for n in ig.ev_nodes() if n.id in live and n.ev["e"] == "call"), fn.loc,
+                   "initialize must install the caller's executor and consume function and size the queue",
+                   site="initialize@installs")
         # ---------------------------------------------------------------- R3 launch failure roll-back
         submits = list(L.call_nodes(ig, callee_re=r"^babylon::Executor::submit$", live=live))
         if submits and not cas:
